@@ -346,9 +346,14 @@ func c15() []*Ob {
 						return ok && shift(cl)
 					}
 					n := 0
-					for _, call := range CallsInAll(fn, Callee("(frac.Fraction).Suicide")) {
+					// the deletion may sit in shrinkSizes itself or in a helper it hands the outsiders to
+					home := c.P.Locate(fn, CallSel(Callee("(frac.Fraction).Suicide")))
+					for home != nil && home.Parent() != nil && home != fn {
+						home = home.Parent()
+					}
+					for _, call := range CallsInAll(home, Callee("(frac.Fraction).Suicide")) {
 						n++
-						if DerivesFrom(Receiver(call), fromShift) {
+						if c.P.DerivesFromIP(Receiver(call), fromShift) {
 							c.Site(call.Pos(), "Suicide is called on a fraction obtained from shiftFirstFrac")
 						} else {
 							c.Violation("prov:shrinkSizes:suicide-target", call.Pos(), "retention calls Suicide on a fraction that was not removed from the list by shiftFirstFrac")
@@ -518,7 +523,7 @@ func c15() []*Ob {
 				}
 				if fn := c.Fn("frac.NewSealed"); fn != nil {
 					lh := Callee("(*frac.Sealed).loadHeader")
-					if len(CallsIn(fn, lh)) == 0 {
+					if !Current.HasCall(fn, lh) {
 						c.Undecided("NewSealed:noloadHeader", fn.Pos(), "frac.NewSealed no longer calls loadHeader")
 					}
 					var info *ssa.Parameter
